@@ -129,7 +129,7 @@ CHECKS = {
     ),
     'C09': dict(
         ref='5.9',
-        text='Theorems in coq/Properties/C09.v (partial): classification by names (Format/Format-Specification, else Files, '
+        text='Theorems in coq/Properties/C09.v, on the quantifier of the property (well-formed documents: no repeated names, no recovery): classification by names (Format/Format-Specification, else Files, '
              'else License, else catch-all); for every document of the deb822 grammar of C06 whose paragraphs classify as '
              'header/files/license the copyright object has exactly one paragraph per document paragraph, in order, of that '
              'type, and no recovery rewrite applies; for a paragraph without repeated names every field with a value is kept '
@@ -138,14 +138,14 @@ CHECKS = {
              'value (whitespace runs collapse, first word is the year range iff it passes the year-range test, rest is the '
              'holder); file patterns are the whitespace-separated words; license = trimmed first line + decoded continuation '
              'lines (decoding itself: C20); no files paragraph => not valid (strict or not); one header + >=1 files paragraph, '
-             'all valid => valid; a files paragraph with files, copyright and license name is valid. NOT proved: the typed '
-             'values for paragraphs WITH repeated names or recovery rewrites (C11/C12), the year-range test itself is a '
+             'all valid => valid; a files paragraph with files, copyright and license name is valid. Outside this property: '
+             'paragraphs WITH repeated names or recovery rewrites (C11/C12); the year-range test itself is a '
              'definition of the model (str.isdigit table swept each run). The complete model is co-executed with copyright.py on '
              'generated DEP-5 documents (random field order, layouts, both spellings, extra fields, corrupted variants), '
              'all strings of length <=4/5 over 9 characters through is_year_range, statement texts, and the executable '
              'statement compares the object with the generating document on every case.',
         note=TRUST + 'Modelled, not verified: str.isdigit/str.split/string.punctuation tables.',
-        technique='Rocq proof (partial) over a Gallina model + differential co-execution against the Python code',
+        technique='Rocq proof over a Gallina model + differential co-execution against the Python code',
     ),
     'C10': dict(
         ref='5.10',
@@ -183,20 +183,21 @@ CHECKS = {
     ),
     'C12': dict(
         ref='5.12',
-        text='Theorems in coq/Properties/C12.v (partial): for every document of the deb822 grammar extended with blank (empty '
+        text='Theorems in coq/Properties/C12.v: for every document of the deb822 grammar extended with blank (empty '
              'or whitespace-only) lines inside a field that are followed by a continuation line, the line-tracking parser '
              'returns exactly the paragraphs and fields, the blank line recorded as an empty line of its field (no paragraph '
              'break); for two such documents that differ only in that some " ." marker lines of the first are blank lines in '
              'the second, both parse into the same paragraphs and fields with the same names and line numbers, the texts '
              'differing only at the replaced lines (" ." vs the empty text), hence the same words in each field; the '
-             'paragraphs get the same type; for paragraphs without repeated field names the typed fields and the extra data of '
-             'the copyright object have the same keys and the same words. Also the look-ahead rule for every parser state, '
+             'whole copyright objects have the same number of paragraphs, of the same types, with typed fields and extra data of '
+             'the same keys and the same words (for documents whose paragraphs classify as header/files/license and have no '
+             'repeated field name - the well-formed documents the property quantifies over). Also the look-ahead rule for every parser state, '
              'protection from trailing-blank trimming, and equal decoding in formatted fields. NOT proved: paragraphs with '
              'repeated names and the recovery rewrites of the copyright object; decided by co-execution of the complete models '
              'with deb822.py and copyright.py on generated DEP-5 and control documents with every admissible subset of their '
              'markers blanked (all subsets for <=6 markers) and by the executable statement.',
         note=TRUST,
-        technique='Rocq proof (induction over the extended document grammar; partial at object level) + differential co-execution and statement checking against the Python code',
+        technique='Rocq proof (induction over the extended document grammar) + differential co-execution and statement checking against the Python code',
     ),
     'C13': dict(
         ref='5.13',
